@@ -27,6 +27,8 @@ type queueSpec struct {
 // role names → function keys, resolved at run time
 func (p *Prog) roleFn(role string) string {
 	switch role {
+	case "server.readloop":
+		return p.fnKey(p.serverReadLoopFn())
 	case "serve.writer":
 		return p.fnKey(p.serveWriter())
 	case "serve.worker":
@@ -75,7 +77,7 @@ var queueTable = []queueSpec{
 	{"conn.writeChan", "goat.newHandler", "chan *pb.Rpc", 0,
 		[]string{"serve.writer"}, []string{"serve.worker", "runStream.writer", "goat.handler.resetStream"}, nil, true, "single writer queue of a server connection"},
 	{"conn.unaryRpcChan", "goat.newHandler", "chan goat.unaryRpcArgs", 0,
-		[]string{"serve.worker"}, []string{"goat.handler.serve"}, nil, false, "unary requests to the worker pool (N consumers: only unary envelopes may enter)"},
+		[]string{"serve.worker"}, []string{"server.readloop"}, nil, false, "unary requests to the worker pool (N consumers: only unary envelopes may enter)"},
 	{"srvstream.ch", "goat.handler.processStreamingRpc", "chan *pb.Rpc", 0,
 		[]string{"runStream.reader"}, []string{"goat.handler.processStreamingRpc"}, nil, true, "inbound envelopes of one server stream"},
 	{"srvstream.done", "goat.handler.processStreamingRpc", "chan struct{}", 0,
